@@ -58,6 +58,14 @@ for entry, fns, what in (('h_state', ('urcu_qsbr_reader_state',), 'classificatio
                           ('h_offline', ('_urcu_qsbr_thread_offline', 'urcu_qsbr_wake_up_gp'), 'thread_offline'), ('h_online', ('_urcu_qsbr_thread_online',), 'thread_online')):
     OBLIGATIONS.append(Ob(name='C01.O3.qsbr.' + entry[2:], harness='C01/qsbr.c', entry=entry, defines=('_LGPL_SOURCE',), unwind=1, native=True, min_covers=1, checks=CK2, functions=fns,
                           desc='qsbr ' + what + ': reader-word update for all values; seq-cst publication; store -> barrier -> waiting test; waiting cleared -> barrier -> futex test; wake iff waiting && futex == -1'))
+# merged synchronize_rcu callers: the wait queue is a wfstack (push result decides who leads the grace period; pop_all hands the waiters to the leader) and the leader wakes the waiters (late import, resolved by engine/check.py)
+def _shared():
+    _r = []
+    from obligations import C11 as _c11
+    _r += [o for o in _c11.OBLIGATIONS if o.name in ('C11.O1.wfs_push', 'C11.O1.wfs_pop_all_iter')]
+    from obligations import C02 as _c02
+    _r += [o for o in _c02.OBLIGATIONS if o.name in ('C02.O5.wake_up', 'C02.O5.wake_all', 'C02.O3.busy_wait')]
+    return _r
 META = {
     'level': 'other',
     'explanation': 'C01 is a safety property over all schedules of readers and updaters; contracts decide, for all inputs, every per-function premise the accepted grace-period argument uses (reader-state classification, reader-word arithmetic and fences of lock/unlock/quiescent-state/offline/online for memb, mb, bp, qsbr; the protocol skeleton of all four synchronize_rcu implementations incl. waiter merging) and, bounded, the registry scan under arbitrary reader behaviour. The composition of these premises into the grace-period theorem is not machine-checked.',
